@@ -61,6 +61,17 @@ def install():
         S0 = copy.deepcopy(json_data)
         res = orig(json_data, verb)
         try:
+            if json_data != S0:
+                _count("spec_mutated_by_greedy")
+                for k in S0:
+                    if json_data.get(k) != S0[k]:
+                        _count("spec_mutated_field " + k)
+                for a, b in zip(S0.get("user_instrs", []), json_data.get("user_instrs", [])):
+                    if a != b and not a.get("commutative") and a.get("inpt_sk") != b.get("inpt_sk"):
+                        _count("spec_mutated_noncommutative_operands")
+        except Exception:
+            pass
+        try:
             check_result(S0, res[3], res[4], "pipeline")
         except Exception as e:
             _count("monitor_internal_error")
@@ -143,6 +154,7 @@ def run():
                        "cases_per_generator": dict(col.by_kind), "cases_per_option_set": dict(col.by_group),
                        "budget_exceeded_cases": {k: v for k, v in col.stat.items() if k.startswith("budget_")},
                        "budget_exceeded_examples": col.fails[:3],
+                       "specifications_altered_in_place_by_greedy": {k: v for k, v in c.items() if k.startswith("spec_mutated")},
                        "monitor_internal_errors": c.get("monitor_internal_error", 0), "pool": st})
     if c.get("monitor_internal_error", 0):
         r.inconclusive.append("!monitor internal error: %s" % [k for k in c if k.startswith("monitor_internal_error_msg")][:2])
